@@ -90,6 +90,9 @@ func CMap(kv ...CB) CB {
 	return out
 }
 func CTag(n uint64, item CB) CB { return append(head(6, n), item...) }
+
+// CTagWide writes the tag number with a forced argument width (1, 2, 4 or 8 bytes): a longer-than-shortest head.
+func CTagWide(n uint64, width int, item CB) CB { return append(headWidth(6, n, width), item...) }
 func CBool(b bool) CB {
 	if b {
 		return CB{0xf5}
